@@ -137,13 +137,13 @@ def collect_asgi(req, order):
 
 
 HEADER_POOL = {
-    "Cookie": ["a=1; b=2", 'sid="q\\073x"; theme=dark', "=bare; x", "a=1;a=2", ""],
+    "Cookie": ["n=caf\xc3\xa9; m=\xe4\xb8\xad", "a=1; b=2", 'sid="q\\073x"; theme=dark', "=bare; x", "a=1;a=2", ""],
     "Accept": ["text/html, application/json;q=0.9, */*;q=0.8", "application/*", "", "*/*", "text/plain;level=1"],
     "Content-Length": ["12", "0", "abc", "-1", ""],
     "Date": ["Sat, 26 Sep 2026 11:10:00 GMT", "junk", "Sat, 26 Sep 2026 11:10:00 +0200"],
-    "Referer": ["http://example.com/a?b#c", "/relative", "http://[::1/"],
+    "Referer": ["http://example.com/caf\xc3\xa9", "http://example.com/a?b#c", "/relative", "http://[::1/"],
     "Host": ["example.com", "example.com:8080", "[::1]:81", "EXAMPLE.com"],
-    "X-Custom": ["v", "caf\xe9", " padded ", ""],
+    "X-Custom": ["v", "caf\xe9", " padded ", "", "caf\xc3\xa9", "\xe4\xb8\xad"],  # (the last two: Latin-1 text whose bytes happen to be UTF-8 - still Latin-1 text to both interfaces)
     "Transfer-Encoding": ["chunked", "identity"],
     "User-Agent": ["verif/1.0"],
     # header names that contain the text of the CGI prefix or of each other
@@ -158,12 +158,17 @@ def gen_view_request(rng):
     headers = []
     for name in rng.sample(list(HEADER_POOL), rng.randrange(0, 6)):
         headers.append((name, rng.choice(HEADER_POOL[name])))
-    kind = rng.choice(["json", "badjson", "urlenc", "multipart", "raw", "none", "json-charset", "urlenc-charset", "empty-ct"] + (["multipart-many"] if rng.random() < 0.15 else []))
+    kind = rng.choice(["json", "badjson", "urlenc", "multipart", "raw", "none", "json-charset", "urlenc-charset", "empty-ct", "json-relatives"] + (["multipart-many"] if rng.random() < 0.15 else []))
     body = b""
     if kind == "json":
         body, ct = rng.choice([b'{"a": [1, 2]}', b'"\xc3\xa9"', b"[]", b'\xef\xbb\xbf{"bom": 1}', '{"k": "v"}'.encode("utf-16"), '[1]'.encode("utf-32-le")]), "application/json"
     elif kind == "badjson":
         body, ct = rng.choice([b'{"a": ', b'"\xff"', b""]), "application/json"
+    elif kind == "json-relatives":
+        # media types next to application/json, and other spellings of it: both interfaces accept or refuse the same ones
+        body = b'{"a": 1}'
+        ct = rng.choice(["application/problem+json", "application/vnd.api+json", "Application/JSON", "APPLICATION/JSON; charset=UTF-8", "text/json", "application/json ", "application/jsonp",
+                         "application/x-json", "application/json;", "application/ld+json; profile=x"])
     elif kind == "json-charset":
         body, ct = '{"k": "é"}'.encode("utf-16"), "application/json; charset=utf-16"
     elif kind == "urlenc":
